@@ -69,6 +69,8 @@ def dispatch(vm, m, callee, args):
         if n == 'is_finite': return ret(m, A.is_finite(a[0]))
         if n == 'is_nan': return ret(m, A.is_nan(a[0]))
         if n == 'is_infinite': return ret(m, A.is_infinite(a[0]))
+        if n == 'is_normal' and hasattr(A, 'is_normal'): return ret(m, A.is_normal(a[0]))
+        if n == 'is_subnormal' and hasattr(A, 'is_subnormal'): return ret(m, A.is_subnormal(a[0]))
         if n == 'recip': return ret(m, A.div(A.const(1.0), a[0]))
         if n == 'mul_add': return ret(m, A.fma(a[0], a[1], a[2]))
         if n == 'sin_cos': return ret(m, Struct((A.call1('sin', a[0]), A.call1('cos', a[0]))))
